@@ -262,10 +262,14 @@ example : validInput (MG.fromEdges [] [(0, 1), (1, 2), (2, 3)] [(0, 2), (0, 3)])
 --   Proved above: for inputs without declared experiments (`trso_no_internal_error_partial`), and for all inputs up to
 --   ONE raise site (`trso_only_activate_error_partial`): `activate_domain_and_interventions` raises NotImplementedError
 --   on `One()`.  What is missing is a shape argument about the estimands returned by the source-phase recursion: they
---   never contain `One()` (a joint is never summed over all its children, line 9's numerator never cancels completely,
---   `canonicalize` never meets a fraction with equal numerator and denominator).  Every run of the check compares the
---   error category of the model and of the Python on ~10^4 inputs and reports any exception on valid input as a
---   violation; no input reaching that raise site has been found.
+--   never contain `One()` (a joint carried inside a source domain always keeps the intervened variables as un-summed
+--   children, line 9's numerator never cancels completely - its value would be >= 1 in the coin model whereas Q[c] < 1 -,
+--   `canonicalize` never meets a fraction with canonically equal parts - the fraction would have value 1 in every model).
+--   Evidence: structured search in the executable model (every DAG on 4 nodes listed in topological order x every
+--   bidirected part x every disjoint non-empty X, Y x every experiment set meeting X x 5 surrogate-outcome sets:
+--   10 158 080 inputs; 2.1 M random relabelled 5-node inputs with one or two domains) found no input on which the model
+--   raises ANY exception; every run of the check compares the error category of the model and of the Python on ~10^4
+--   inputs and reports any exception on valid input as a violation.
 
 /-! ## 2. Selection diagrams, set-theoretically -/
 
